@@ -62,3 +62,53 @@ harness!(mem_other_sizes, unwind 35, {
     let h = HyperLogLog::<H64, IdBH>::with_hash(b, IdBH);
     chk!("hll_len", h.registers().len() == 1usize << b && h.m() == 1usize << b);
 });
+
+/// clear() must not change the amount of memory: the table of a cleared filter has the block count of a fresh one,
+/// for every fingerprint / remainder width.
+harness!(mem_cuckoo_clear, unwind 35, {
+    use pdatastructs::filters::Filter;
+    // widths on both sides of the block size and ones that do not divide it (a symbolic width makes the bit packing
+    // of with_fill needlessly expensive; the constructor's arithmetic is decided for every width by mem_cuckoo_alloc)
+    let l = match any_u8() % 6 {
+        0 => 2usize,
+        1 => 3,
+        2 => 16,
+        3 => 31,
+        4 => 33,
+        _ => 64,
+    };
+    let mut f = CuckooFilter::<Elem, SymRng, CkBH>::with_params_and_hash(SymRng, 2, 2, l, CkBH { tab: 0 });
+    let blocks0 = f.verif_table_blocks();
+    let len0 = f.verif_table_len();
+    f.clear();
+    chk!("clear_keeps_block_count", f.verif_table_blocks() == blocks0);
+    chk!("clear_keeps_table_len", f.verif_table_len() == len0);
+    chk!("cleared_table_within_one_spare_block", f.verif_table_blocks() * 64 < 4 * l + 64);
+    f.clear();
+    chk!("clear_twice_keeps_block_count", f.verif_table_blocks() == blocks0);
+    cov!("l2", l == 2);
+    cov!("l64", l == 64);
+    cov!("l33", l == 33);
+});
+
+harness!(mem_qf_clear, unwind 35, {
+    use pdatastructs::filters::Filter;
+    let br = match any_u8() % 5 {
+        0 => 2usize,
+        1 => 3,
+        2 => 16,
+        3 => 33,
+        _ => 62,
+    };
+    let mut f = QuotientFilter::<H64, IdBH>::with_params_and_hash(2, br, IdBH);
+    let blocks0 = f.verif_table_blocks();
+    let len0 = f.verif_table_len();
+    f.clear();
+    chk!("clear_keeps_block_count", f.verif_table_blocks() == blocks0);
+    chk!("clear_keeps_table_len", f.verif_table_len() == len0);
+    chk!("cleared_table_within_one_spare_block", f.verif_table_blocks() * 64 < 4 * br + 64);
+    f.clear();
+    chk!("clear_twice_keeps_block_count", f.verif_table_blocks() == blocks0);
+    cov!("r2", br == 2);
+    cov!("r62", br == 62);
+});
